@@ -1075,3 +1075,85 @@ def r_probe_index(F, V):
             R.inst(key, "index = (probe_seq.pos + bit) & bucket_mask", "ok", True, where(b, stmt=masked[0][0]))
     R.floor("probe index sites", n, 4)
     return R
+
+
+# --------------------------------------------------------------------- R-CTRL-GEOMETRY
+
+def _agg_fields(b, adt):
+    for i, k, s in b.stmts():
+        if s["k"] == "assign" and s["rv"]["k"] == "aggregate" and s["rv"].get("adt") == adt:
+            return s, dict(zip(s["rv"]["fields"], [expr_key(b, o) for o in s["rv"]["ops"]]))
+    return None, {}
+
+
+def r_ctrl_geometry(F, V):
+    """Shape of the control-byte array and of the walkers' initial state, as constant / expression relations:
+    num_ctrl_bytes = bucket_mask + 1 + WIDTH (the mirrored tail); a new table has bucket_mask = buckets - 1, growth_left =
+    bucket_mask_to_capacity(buckets - 1), items = 0; the group walkers start with next_ctrl = ctrl + WIDTH, end = ctrl + len,
+    and FullBucketsIndices advances its pointer and its base index by the same WIDTH."""
+    R = Result("R-CTRL-GEOMETRY", F.cfg)
+    W = None
+    for p, v in F.consts.items():
+        if p.endswith("Group::WIDTH"):
+            W = int(v["val"])
+    if W is None:
+        R.undec("Group::WIDTH not found")
+        return R
+    n = 0
+    checks = []
+    b = F.bodies.get("raw::RawTableInner::num_ctrl_bytes")
+    if b is not None:
+        n += 1
+        k = expr_key(b, {"k": "copy", "p": {"l": 0}})
+        leaves = sorted(_add_leaves(k.replace(").0", ")")))
+        import re as _re2
+        consts_ = [int(_re2.match(r"^c:(\d+):usize$", x).group(1)) for x in leaves if _re2.match(r"^c:(\d+):usize$", x)]
+        others_ = [x for x in leaves if not _re2.match(r"^c:(\d+):usize$", x)]
+        # allocated: buckets + WIDTH = bucket_mask + 1 + WIDTH bytes; the very last one (index buckets + WIDTH - 1) is written by
+        # the mirror but never read by any group load, so bucket_mask + WIDTH is observably equivalent; anything smaller leaves
+        # readable mirror bytes stale, anything larger overruns the allocation
+        total = sum(consts_)
+        checks.append(("num_ctrl_bytes covers the mirrored tail without overrunning it (bucket_mask + WIDTH .. bucket_mask + 1 + WIDTH)",
+                       others_ == ["a1.deref.bucket_mask"] and W <= total <= W + 1, "terms %s" % leaves, b,
+                       "the control array has buckets + WIDTH bytes (the first group mirrored after the last bucket): a smaller count makes bulk operations (fill, copy, clone) leave readable mirror bytes stale, a larger one overruns the block"))
+    b = F.bodies.get("raw::RawTableInner::new_uninitialized")
+    if b is not None:
+        st, f = _agg_fields(b, "raw::RawTableInner")
+        if f:
+            n += 1
+            bm = f.get("bucket_mask", "")
+            checks.append(("new table: bucket_mask = buckets - 1", bm.startswith("Sub(") and bm.rstrip(".0").endswith(",c:1:usize)") and "a3" in bm, bm[:60], b, "bucket_mask must be buckets - 1 for `& bucket_mask` to be `mod buckets`"))
+            gl = f.get("growth_left", "")
+            checks.append(("new table: growth_left = bucket_mask_to_capacity(bucket_mask)", gl == "raw::bucket_mask_to_capacity(%s)" % bm, gl[:80], b, "a fresh table must start with its full (7/8) capacity as free room, computed from the same mask"))
+            checks.append(("new table: items = 0", f.get("items") == "c:0:usize", f.get("items", "")[:40], b, "a fresh table holds no elements"))
+    b = F.bodies.get("raw::RawIterRange::new")
+    if b is not None:
+        st, f = _agg_fields(b, "raw::RawIterRange")
+        if f:
+            n += 1
+            nc, en = f.get("next_ctrl", ""), f.get("end", "")
+            checks.append(("RawIterRange::new: next_ctrl = ctrl + Group::WIDTH", nc.endswith("::add(a1,c:%d:usize)" % W), nc[-60:], b, "the first group is loaded from ctrl, the next one lies exactly one group further"))
+            checks.append(("RawIterRange::new: end = ctrl + len", en.endswith("::add(a1,a3)"), en[-60:], b, "the range ends len control bytes after its start"))
+            checks.append(("RawIterRange::new: data = the data pointer argument", f.get("data") == "a2", f.get("data", "")[:40], b, "bit i of the first group belongs to data.next_n(i)"))
+    b = F.bodies.get("raw::FullBucketsIndices::next_impl")
+    if b is not None:
+        steps = {}
+        for i, k, s in b.stmts():
+            if s["k"] == "assign" and s["p"].get("proj") and s["rv"]["k"] in ("use", "binop"):
+                nm = [e.get("name") for e in s["p"]["proj"] if e["k"] == "field"]
+                if nm and nm[-1] in ("group_first_index", "ctrl"):
+                    kk = expr_key(b, s["rv"]["op"]) if s["rv"]["k"] == "use" else "%s(%s,%s)" % (s["rv"]["op"], expr_key(b, s["rv"]["a"]), expr_key(b, s["rv"]["b"]))
+                    import re as _re
+                    m = _re.search(r"c:(\d+):usize", kk)
+                    steps[nm[-1]] = int(m.group(1)) if m else None
+        if steps:
+            n += 1
+            checks.append(("FullBucketsIndices: pointer and base index advance by Group::WIDTH together", steps.get("group_first_index") == W and steps.get("ctrl") == W, str(steps), b,
+                           "the indices yielded are base + bit: a base that advances differently from the pointer reports wrong bucket indices during resize"))
+    for name, ok, detail, body, why in checks:
+        if ok:
+            R.inst(name, "%s (%s)" % (name, detail), "ok", True, where(body))
+        else:
+            R.violation("geometry|" + name.split(":")[0].split(" =")[0], body, "control-array geometry relation violated: %s (%s): %s" % (name, detail, why))
+    R.floor("geometry sites judged", n, 3)
+    return R
